@@ -49,11 +49,24 @@ def supportsByte (run : List (List Byte)) (i : Nat) (c : Byte) : Bool :=
 def supportsText (run : List (List Byte)) (text : List Byte) : Bool :=
   run.length ≥ 2 && (List.range text.length).all (fun i => supportsByte run i (text.getD i 0))
 
-/-- a run supports an end-of-message if its per-position vote begins `NN` -/
+/-- weak support (what `combine`'s trailer rule rests on, C04.eom_supported): at position `i` the
+    byte `c` is the lone byte of the only burst that reaches it, the common byte of the two that do,
+    or the bitwise majority of three -/
+def weaklySupportsByte (run : List (List Byte)) (i : Nat) (c : Byte) : Bool :=
+  match run.filterMap (fun b => (b[i]?).map msk) with
+  | [a] => a == c
+  | [a, b] => a == c && b == c
+  | [a, b, d] => (List.range 8).all (fun k => bitOf c k == maj (bitOf a k) (bitOf b k) (bitOf d k))
+  | _ => false
+
+/-- a run supports an end-of-message if it combines to an `NN`-prefixed estimate: its per-position
+    vote begins `NN`.  (The property says "a run combining to an NN-prefixed trailer"; positions that only one
+    burst of the run reaches count with that burst's byte, exactly as in `combine` — a first version of this
+    rule demanded two agreeing bursts at both positions and alarmed on `["N", "N", "MNNN"]`, which the code
+    rightly reports: false alarm of the oracle, found by the thorough tier after the damaged-prefix family
+    was added.) -/
 def supportsEom (run : List (List Byte)) : Bool :=
-  match run with
-  | [a] => (a.take 2).map msk == [78, 78]
-  | _ => supportsByte run 0 78 && supportsByte run 1 78
+  weaklySupportsByte run 0 78 && weaklySupportsByte run 1 78
 
 /-- all runs of 1..3 consecutive bursts among those that ended at or before `t` -/
 def runsBefore (bursts : List SBurst) (t : Nat) : List (List (List Byte)) :=
